@@ -78,4 +78,20 @@ def scaleRec (c : α) (r : IterRec α) : IterRec α :=
 def scaleOut (c : α) (o : TaOut α) : TaOut α :=
   ⟨⟨dscale c o.solution.core, o.solution.factors⟩, o.uinit, o.iters, c * o.normresidual, o.fit⟩
 
+/-- the array with the modes relabelled by `p` (`tensor.permute(p)` by its entry-wise meaning: mode `k` of the
+result is mode `p[k]` of `T`, entry `j'` is entry `gather j' (invPerm p)` of `T`) -/
+def permuteD {β : Type} [Zero β] (p : List Nat) (T : Dense β) : Dense β :=
+  Dense.ofFn (gather T.shape p) fun j' => T.get (gather j' (invPerm p))
+
+/-- a record of one pass of `hosvd`'s mode loop, with the mode expressed in the relabelled problem -/
+def relabelRec {β : Type} (p : List Nat) (r : ModeRec β) : ModeRec β := { r with k := (invPerm p).getD r.k 0 }
+
+/-- the loop state of `hosvd` of the relabelled problem -/
+def relabelH {β : Type} [Zero β] (p : List Nat) (st : HState β) : HState β :=
+  ⟨permuteD p st.Y, gatherD st.factors p [], gather st.ranks p, st.trace.map (relabelRec p)⟩
+
+/-- the Tucker tensor with core and factor list relabelled -/
+def relabelT {β : Type} [Zero β] (p : List Nat) (T : Ttensor β) : Ttensor β :=
+  ⟨permuteD p T.core, gatherD T.factors p []⟩
+
 end Pyttb.Tk
